@@ -551,12 +551,33 @@ def _variant_index(fx, adt, variant):
     return None
 
 
+def assert_operand_type(ctx, body, ev):
+    """the integer type of the operands of an overflow assert, read from the MIR (None when it cannot be found)"""
+    b = body
+    if "inlined_from" in ev.data and ctx is not None:
+        b = ctx.body(ev.data["inlined_from"]) or body
+    try:
+        t = b.blocks[ev.bb if isinstance(ev.bb, int) and ev.bb >= 0 else ev.data.get("orig_bb", ev.bb)]["term"]
+    except (KeyError, IndexError, TypeError):
+        return None
+    if t.get("k") != "assert":
+        return None
+    tys = set()
+    for m_ in t.get("mops", ()):
+        ty = (m_.get("place") or {}).get("ty") if m_.get("k") in ("move", "copy") else m_.get("ty")
+        if ty:
+            tys.add(ty)
+    return next(iter(tys)) if len(tys) == 1 else None
+
+
 def discharge(ctx, body, p, ev, kind):
     """name of the guard rule that makes this site safe on path p, or None"""
     bb = ev if "inlined_from" in ev.data else ev.bb
     if kind.startswith("assert:Overflow(Add)"):
         a, b = ev.mops
-        if bounded_size(a) and bounded_size(b):
+        # sizes of in-memory things are at most isize::MAX each, so the sum of two of them fits in usize; that argument is about usize only
+        # (an i64 / u64 read from the input has no such bound)
+        if assert_operand_type(ctx, body, ev) == "usize" and bounded_size(a) and bounded_size(b):
             return "G5-size-arithmetic"
         return None
     if kind.startswith("assert:Overflow(Sub)"):
@@ -589,7 +610,7 @@ def discharge(ctx, body, p, ev, kind):
         a, b = ev.mops
         # the length of an in-memory buffer (at most isize::MAX) times 1 or 2 fits in usize
         for x, y in ((a, b), (b, a)):
-            if length_of(x) is not None and const_int(y) is not None and 0 <= const_int(y) <= 2:
+            if length_of(x) is not None and const_int(y) is not None and 0 <= const_int(y) <= 2 and assert_operand_type(ctx, body, ev) in ("usize", None):
                 return "G5-length-times-small-constant"
         return None
     if kind.startswith("assert:Overflow(Shr)") or kind.startswith("assert:Overflow(Shl)"):
